@@ -360,7 +360,7 @@ func (m *Meta) Drop(name string) *Meta {
 	} else {
 		mu.putSchema(m.newSchemaTomb(name))
 	}
-	ti := m.schema.MustGet(ts.Table)
+	ti := m.info.MustGet(ts.Table)
 	if ti.created != 0 && ti.created == m.info.Clock {
 		// not persisted so no need for tombstone
 		mu.info = mu.meta.info.Mutable()
